@@ -80,4 +80,38 @@ PROPS = {
              'distinct = distinct case text',
         explanation='C11_*_check_* theorems: a claimed set accepted by the checker is exactly the defined set.',
     ),
+    'C06': dict(
+        level='proof',
+        level_text='Rocq theorems for all grammars and k: the reference Kleene iterations compute exactly FIRST_k (per non-terminal, per '
+                   'production, per sentential form) and FOLLOW_k as defined by derivations (C06_first_ref_correct, C06_follow_ref_correct; '
+                   'no hypothesis on the grammar), and a claimed set accepted by the executable checkers IS the defined set '
+                   '(C06_*_check_sound). Tie to the code: the real first_k / follow_k results (through shared FirstCache/FollowCache in random '
+                   'request orders with repetitions) are decoded from the packed tuples and checked, by set equality, for k = 0..4.',
+        level_note='Trusted: Coq kernel, extraction, OCaml driver, Rust harness (decoding of KTuples via the public iterator; epsilon marker -> '
+                   'empty string). The seeded/Gauss-Seidel iteration of first.rs/follow.rs is NOT modelled step by step: the theorem is about '
+                   'the reference, the implementation is compared with it. Cache-order independence is tested, not proved. FOLLOW_0 is not '
+                   'requested (the implementation seeds it with [$], the definition gives [eps]; k = 0 is never used by the decision).',
+        technique='Rocq proof (least fixpoint = derivation-defined sets) + proved set-equality checkers on the real outputs via extraction',
+        streams=[dict(cmd='c06', quick=250, thorough=8000)],
+        rule='random productive, reachable, left-recursion-free BNF grammars (<=4 non-terminals, <=3 terminals), all k in 0..maxk (maxk 1-4) '
+             'for FIRST and 1..maxk for FOLLOW, in a random request order with repeated requests on shared caches; non-trivial = k >= 2 and '
+             '(for FIRST) the grammar has a non-terminal on some right-hand side; distinct = distinct case text',
+        explanation='C06_first_check_sound / C06_follow_check_sound: accepted claim = derivation-defined set.',
+    ),
+    'C05': dict(
+        level='proof',
+        level_text='Rocq theorems for all grammars and K: the reference decision assigns to each non-terminal the smallest k <= K at which it '
+                   'is strong-LL(k) (defined from derivation-based FIRST_k/FOLLOW_k) or none if it conflicts at every k <= K '
+                   '(C05_decide_ref_correct, C05_sll_check_correct), and this answer is unique (C05_decide_spec_functional), so comparing the '
+                   'real per-non-terminal answers of `decidable` and the verdict of calculate_lookahead_dfas with it is exact '
+                   '(C05_decide_check_sound).',
+        level_note='Trusted: Coq kernel, extraction, OCaml driver, Rust harness. The packed-tuple set operations of k_decision.rs are not '
+                   'modelled here (see C32); the implementation is compared with the proved reference on the explored grammars.',
+        technique='Rocq proof (reference decision procedure correct and unique) + exact comparison of the real decision via extraction',
+        streams=[dict(cmd='c05', quick=1500, thorough=40000)],
+        rule='grammars constructed to need exactly k = 1..5 tokens with K = k-1, k, 5 and near misses; clean tiny grammars (every 37th / all); '
+             'random clean BNF grammars with K in 1..4; non-trivial = some non-terminal needs k >= 1 or the grammar is rejected; distinct = '
+             'distinct case text',
+        explanation='C05_decide_check_sound: accepted rows satisfy decide_spec (minimal k, real conflict on rejection).',
+    ),
 }
